@@ -124,6 +124,8 @@ fn main() {
     ctx.assume("history dimension (explicit-state exploration of the builder value): for every grid point B the builder is ALSO reached through four histories - configured at the valid reference point A then check_ref then the setters of B on the same value; the same with a clone taken after the check; a fit on the unchecked builder at A instead of the check; configured at the invalid reference point A' and rejected first - and check_ref(), check() and the unchecked training calls at B must equal those of the freshly built builder (same error Debug string, same model fingerprint). Constructor-only arguments (k-means / GMM n_clusters, DBSCAN / OPTICS min_points, PLS n_components, FastICA ncomponents) stay those of B; a history whose setter chain cannot reach B's parameter values (setters that cannot unset an Option) is counted as not comparable; builders without Clone (PLS, random projection) have no clone history; the clone / fit / rejected histories run only the first training form");
     ctx.assume("check() leaves the parameters unchanged: the Debug string (accessors for random projection) of the value RETURNED by check() must equal that of the value behind check_ref() of the same builder and must be contained in the builder's own Debug string (sig *.check_vs_check_ref.checked_params_differ / *.check_ref.checked_params_differ_from_builder); the three PLS builders expose neither Debug nor accessors on their checked parameters and are covered only through the equality of the fitted models");
     ctx.assume("enum-valued / structured settings without a documented range are free axes of the grids (k-means init incl. Precomputed with rows == and != n_clusters, GMM init method, DBSCAN / OPTICS neighbour index, SVM kernel, PLS algorithm and scale, tree split quality / depth / leaf weight, logistic initial parameters, Tweedie link, t-SNE preliminary iterations): every value is documented valid; k-means Precomputed with rows != n_clusters passes both checks and then hits the assert of KMeansInit::run in BOTH forms (counted under valid_points_where_both_forms_panic, not a violation of this property)");
+    ctx.assume("builder-order histories: `valid_then_invalid_then_moved` (A, then the invalid A', then B on the same value without any check: last write wins) and, for every params type with rebuilding / type-changing / whole-field setters - k-means init_method; GMM with_rng, init_method, covariance_type; DBSCAN / OPTICS dist_fn, nn_algo; hierarchical with_method; SVM with_kernel_params, with_platt_params; FTRL rng; random projection with_rng; count vectoriser tokenizer - the orders `values_then_<setter>` (every value setter of B BEFORE the rebuilding setter, which is called with the value the point already has), `<setter>_then_values` (AFTER it) and `values_then_all_rebuilding_setters`: the builder's Debug snapshot, check_ref(), check() and the first training form must equal those of the builder built in the harness' default order (sig *.history.<name>.parameters_differ_from_fresh / *_verdict_differs_from_fresh / *_result_differs_from_fresh)");
+    ctx.assume("valid extremes: every float list carries the largest finite value of the float type (class max_finite), every count list u32::MAX (class huge), the logistic initial parameters carry all-MAX, MAX-and-1, all -MAX (sums overflow), MIN_POSITIVE, subnormal and -0.0 arrays: documented valid, check() / check_ref() must accept them; no training call with the huge ones (skip_ops)");
     ctx.assume("a documented-invalid point that check() accepts is reported and NOT trained on; values flagged skip_ops (solver can only stop at its iteration cap) get the verdict oracles but no training call");
 
     let mut cases: Vec<Case> = Vec::new();
